@@ -935,6 +935,12 @@ def _load_data(rec, context):
 
         result.add_component(comp, cid)
 
+        # Links that do not store their target (e.g. BinaryComponentLink) are
+        # restored pointing at a placeholder ID, so point them at the ID of
+        # the component they define.
+        if isinstance(comp, DerivedComponent):
+            comp.link.set_to_id(cid)
+
     assert result._world_component_ids == []
 
     coord = [c for c in comps if isinstance(c[1], CoordinateComponent)]
@@ -1381,6 +1387,12 @@ def _load_regiondata(rec, context):
                 comps[icomp] = (cid, comp)
 
         result.add_component(comp, cid)
+
+        # Links that do not store their target (e.g. BinaryComponentLink) are
+        # restored pointing at a placeholder ID, so point them at the ID of
+        # the component they define.
+        if isinstance(comp, DerivedComponent):
+            comp.link.set_to_id(cid)
 
     assert result._world_component_ids == []
 
